@@ -1,12 +1,14 @@
 import Driver.Latch
 import Driver.LockFam
 import Driver.Barrier
+import Driver.HB
 open Driver
 
 def comps : List Comp := [LatchD.comp, LockFamD.comp, BarrierD.comp]
 
 def main (args : List String) : IO UInt32 := do
   match args with
+  | ["hb"] => Driver.HBD.run
   | [name] =>
       match comps.find? (·.name == name) with
       | some c => runComp c
